@@ -94,6 +94,17 @@ CLAIMED["C18"] = dict(
     technique="Lean 4 proofs (filter, format, interleaving invariant) + regenerated facts + exact line differential",
     ref="DESIGN.md §6 C18")
 
+CLAIMED["C05"] = dict(
+    text="Lean theorems about an interleaving model of the execution loop (Size, Head, arm timer, select, tick) with any number of API calls (lock, mutate, send token), no fairness or timing assumption, for ALL interleavings: whenever the queue's earliest fire time moved forward since the loop last read it, a token is pending, a send is pending, or the loop has not read yet (C05_invariant); hence a loop blocked in select without a token is armed for a deadline that covers the earliest fire time of the CURRENT queue (C05_parked_correct, C05_never_lost); taking a token always leads back to reading the queue; the send never blocks. Instantiated with facts regenerated from the source (interrupt capacity 1, Reset() is select-send-default, ScheduleJob/ResumeJob send after the mutation under the lock, loop order). Proved negative controls: capacity 0, no send, send before the mutation, no re-read, blocking send. Tie: facts + scenario matrix on the real scheduler (5 park modes x 3 calls x 4 stall points x 4 interleaves of other mutations) with a latency verdict.",
+    note="'promptly' additionally needs timer accuracy and goroutine fairness: observed with a 300 ms one-sided threshold, not proved",
+    technique="Lean 4 inductive invariant over all interleavings, parameterised by regenerated facts + scenario matrix",
+    ref="DESIGN.md §6 C05")
+CLAIMED["C15"] = dict(
+    text="Lean theorems about the loop with every queue-call result, clock reading and select outcome as an input, for ALL fault plans: after a Pop/Push error read at time t no later iteration ticks before t + RetryInterval whatever faults and interrupts follow, and the deadline is not postponed by interrupts (C15_backoff, C15_deadline_not_postponed; negative controls: no back-off state spins, the flag variant is starved by interrupts — the two repaired defects); every API method returns the error of its first failing queue call and makes no further call; a dispatch only follows a successful Pop of that entry and at most one push per pop, so no (job, fire time) is dispatched twice; once faults stop the loop behaves exactly like the fault-free loop (C15_recovers). Tie: regenerated facts (the loop's switch cases and timer arguments, retryAt assignment, error returns of fetchAndReschedule and of each API method) + fault-injecting queue: single faults exhaustively by call index x {fail, delay}, bursts, random mixes in child processes; judged for panics, hangs, propagation, duplicates, call rate, recovery under API traffic.",
+    note="call rates and recovery latency are observed with one-sided thresholds; a queue on which a failed call has no effect is assumed for no-double-fire",
+    technique="Lean 4 proofs over all fault assignments + regenerated facts + exhaustive single-fault injection",
+    ref="DESIGN.md §6 C15")
+
 REASON_PENDING = "check not built yet (build phase in progress); planned per DESIGN.md §6"
 
 m = {
